@@ -186,7 +186,16 @@ def translate():
     except Exception:
         rep['linear'] = {'error': out7[-500:]}
         rep['untranslatable'].append({'name': 'linear::at', 'group': 'Linear', 'why': out7[-500:]})
-    return rep, out + out2 + out3 + out4 + out5 + out6 + out7
+    # the make_parameter_pack_for overload table (Gen_Ppf.v)
+    rc8, out8 = sh([sys.executable, os.path.join(VERIF, 'tools', 'cxx_ppf.py'), REPO, os.path.join(COQ, 'gen', 'Gen_Ppf.v')], timeout=300)
+    try:
+        rep['ppf'] = json.loads(out8.strip().split('\n')[-1])
+        for pr in rep['ppf']['problems']:
+            rep['untranslatable'].append({'name': 'make_parameter_pack_for', 'group': 'Ppf', 'why': pr})
+    except Exception:
+        rep['ppf'] = {'error': out8[-500:]}
+        rep['untranslatable'].append({'name': 'make_parameter_pack_for', 'group': 'Ppf', 'why': out8[-500:]})
+    return rep, out + out2 + out3 + out4 + out5 + out6 + out7 + out8
 
 
 def coq_makefile():
